@@ -117,6 +117,20 @@ class Plain:
     self.a = a
   def meth(self, b=2):
     return b
+
+@gin.register('Vault', module='short', denylist=['secret'])
+class Safe:
+  def __init__(self, colour='red', secret='s3'):
+    self.colour, self.secret = colour, secret
+  def open(self, force=False):
+    return force
+
+@gin.register('Locker', allowlist=['colour'])
+class Box:
+  def __init__(self, colour='red', hidden='h'):
+    self.colour, self.hidden = colour, hidden
+  def open(self, force=False):
+    return force
 ''')
   sys.path.insert(0, d)
   atexit.register(lambda: shutil.rmtree(d, ignore_errors=True))
@@ -125,7 +139,8 @@ class Plain:
 
 PARAMS = ['a', 'b', 'nope', 'zz', '_private', 'A']
 SCOPES = ['', 's']
-PATHS = ['str', 'tuple', 'list', 'pbk', 'text', 'block', 'files_and_bindings', 'hook', 'hook_tuple']
+PATHS = ['str', 'tuple', 'list', 'pbk', 'text', 'block', 'files_and_bindings', 'hook', 'hook_tuple', 'tuple4',
+         'list4', 'hook_tuple4']
 
 
 def bound(tier):
@@ -154,8 +169,27 @@ def accepts(tname, spelling, param):
   return True, 'ok'
 
 
+def four(scope, sel, param):
+  """A plain 4-sequence spelled like the fields of a parsed key (scope, given selector, complete selector, parameter);
+  whether a *valid* one is accepted is not prescribed, an invalid one must be rejected like any other key."""
+  try:
+    complete = cfg._REGISTRY.get_match(sel).selector
+  except Exception:  # pylint: disable=broad-except
+    complete = sel
+  return (scope, sel, complete or sel, param)
+
+
 def attempt(path, scope, sel, param, value):
   key = (scope + '/' if scope else '') + sel + '.' + param
+  if path in ('tuple4', 'list4'):
+    k4 = four(scope, sel, param)
+    gin.bind_parameter(k4 if path == 'tuple4' else list(k4), value)
+    return
+  if path == 'hook_tuple4':
+    k4 = four(scope, sel, param)
+    gin.config.register_finalize_hook(lambda config: {k4: value})
+    gin.finalize()
+    return
   if path == 'str':
     gin.bind_parameter(key, value)
   elif path == 'tuple':
@@ -174,6 +208,13 @@ def attempt(path, scope, sel, param, value):
     k = key if path == 'hook' else (scope, sel, param)
     gin.config.register_finalize_hook(lambda config: {k: value})
     gin.finalize()
+
+
+def safe_config_str():
+  try:
+    return gin.config_str()
+  except Exception as e:  # pylint: disable=broad-except
+    return '<config_str raised %r>' % (e,)
 
 
 def observe(tname):
@@ -201,6 +242,9 @@ def run_case(case, res):
   except Exception as e:  # pylint: disable=broad-except
     out = 'rejected:' + type(e).__name__
   res.outcome('%s:%s' % (why, out.split(':')[0]))
+  if ok and path.endswith('4') and out != 'accepted':
+    res.w('four_sequence_key_rejected')
+    return
   if ok:
     if out != 'accepted':
       res.violation('valid_binding_rejected', 'case %r: a valid binding was %s' % (case, out), case)
@@ -223,7 +267,7 @@ def run_case(case, res):
     return
   if out == 'accepted':
     res.violation('invalid_binding_accepted:' + why, 'case %r: binding that must be rejected (%s) was accepted; config:\n%s'
-                  % (case, why, gin.config_str()), case)
+                  % (case, why, safe_config_str()), case)
     return
   after = observe(tname)
   if after != before:
@@ -252,6 +296,14 @@ DYN = {
     'allowlisted_class_reregistered': ('c11dyn.Gadget.draw.w = 2', [
         ('Gadget', 'hidden', False, 'not_allowlisted'), ('Gadget', 'colour', True, 'ok'),
         ('draw', 'w', False, 'method_without_class'), ('c11dyn.Gadget.draw', 'w', True, 'ok')]),
+    'custom_named_denylisted_reregistered': ('c11dyn.Safe.open.force = True', [
+        ('Vault', 'secret', False, 'denylisted'), ('short.Vault', 'secret', False, 'denylisted'),
+        ('c11dyn.Safe', 'secret', False, 'denylisted'), ('Safe', 'secret', False, 'denylisted'),
+        ('c11dyn.Safe', 'colour', True, 'ok'), ('c11dyn.Safe', 'nope', False, 'unknown_param'),
+        ('c11dyn.Safe.open', 'force', True, 'ok')]),
+    'custom_named_allowlisted_reregistered': ('c11dyn.Box.open.force = True', [
+        ('Locker', 'hidden', False, 'not_allowlisted'), ('c11dyn.Box', 'hidden', False, 'not_allowlisted'),
+        ('Box', 'hidden', False, 'not_allowlisted'), ('c11dyn.Box', 'colour', True, 'ok')]),
     'class_reference_reregistered': ('c11dyn.Plain.a = @c11dyn.Widget\nc11dyn.Widget.render.size = 1', [
         ('Widget', 'secret', False, 'denylisted'), ('Widget', 'colour', True, 'ok')]),
 }
@@ -282,6 +334,8 @@ def run_dyn_case(case, res):
   except Exception as e:  # pylint: disable=broad-except
     out = 'rejected:' + type(e).__name__
   res.outcome('dyn:%s:%s' % (why, out.split(':')[0]))
+  if ok and path.endswith('4') and out != 'accepted':
+    return
   if ok:
     if out != 'accepted':
       res.violation('valid_binding_rejected', 'case %r: %s.%s after dynamic registration was %s' %
